@@ -14,6 +14,8 @@ def main():
     ap.add_argument("--quiet", action="store_true")
     a = ap.parse_args()
     prop = a.prop.upper()
+    if a.replay:
+        a.replay = os.path.abspath(a.replay)
     seed = int(os.environ.get("VERIF_SEED", "0") or 0)
     from . import build, core
     modname = "mc.checks.%s" % prop.lower()
